@@ -65,14 +65,15 @@ var fmtTexts = map[string][]string{
 	"email":     {"a@b.example", "first.last@sub.example.org", "zzz", "a@", "@b", "A <a@b.example>", "a b@c.example"},
 	"ipv4":      {"10.0.0.1", "255.255.255.255", "0.0.0.0", "256.0.0.1", "1.2.3", "01.2.3.4", "::1", "1.2.3.4 "},
 	"password":  {"s3cret", "p w", "ü", "a,b"},
+	"x-color":   {"#00ff7f", "#00FF7F", "#AbCdEf", "00ff7f", "#00ff7", "#gggggg", "red"},
 }
 
 var fmtDefaults = map[string]string{
 	"date": "2020-01-02", "date-time": "2020-01-02T03:04:05Z", "byte": "aGVsbG8=", "duration": "3s",
-	"uuid": "a8098c1a-f86e-11da-bd1a-00112444be1e", "email": "a@b.example", "ipv4": "10.0.0.1", "password": "s3cret",
+	"uuid": "a8098c1a-f86e-11da-bd1a-00112444be1e", "email": "a@b.example", "ipv4": "10.0.0.1", "password": "s3cret", "x-color": "#00ff7f",
 }
 
-var stringFormats = []string{"date", "date", "date-time", "date-time", "byte", "byte", "uuid", "uuid", "duration", "email", "ipv4", "password", "x-unregistered"}
+var stringFormats = []string{"date", "date", "date-time", "date-time", "byte", "byte", "uuid", "uuid", "duration", "email", "ipv4", "password", "x-unregistered", "x-color", "x-color"}
 
 // genScalarType draws a scalar type and format.
 func genScalarType(t *rapid.T) (string, string) {
@@ -472,12 +473,13 @@ func genCase(t *rapid.T, maxDecls, nreqs int, full bool) Case {
 		c.Decls = append(c.Decls, d)
 	}
 	for r := 0; r < nreqs; r++ {
-		req := Req{Multipart: hasFile || rapid.Bool().Draw(t, "multipart")}
+		req := Req{Multipart: hasFile || rapid.Bool().Draw(t, "multipart"), UpperCT: rapid.IntRange(0, 3).Draw(t, "content-type-capitals") == 0}
 		for _, d := range c.Decls {
 			req.Sent = append(req.Sent, genSent(t, d, full))
 		}
 		c.Reqs = append(c.Reqs, req)
 	}
+	c.LateFormat = rapid.Bool().Draw(t, "format-registered-late")
 	return c
 }
 
